@@ -66,6 +66,11 @@ var $callDeferred = (deferred, jsErr, fromPanic) => {
                     deferred = null;
                     continue;
                 }
+                if ($curGoroutine.exit && !fromPanic) {
+                    /* runtime.Goexit() is unwinding the goroutine: after this frame's deferred
+                       calls ran, keep unwinding instead of returning to the caller. */
+                    throw null;
+                }
                 return;
             }
             var r = call[0].apply(call[2], call[1]);
